@@ -2,20 +2,51 @@
 import json, os
 from . import common as C
 
+K_NOTE = "Kani 0.68 / CBMC 6.11 / CaDiCaL trusted; alloc::fmt::format stubbed; verdicts hold only inside the bounds listed per obligation in the evidence file"
 CLAIMED = {
     # id: (engine, technique, level text, level note, design ref)
-    "C06": ("kani", "bounded model checking (Kani/CBMC) of the real deserializers over fully symbolic byte buffers",
-            "every byte string up to the stated buffer bound is decided by the SAT back end against Kani's panic/overflow/bounds checks; says nothing beyond the bound",
-            "Kani/CBMC/CaDiCaL trusted; alloc::fmt::format stubbed; hashers inside parsers replaced by a harness mixer; verify() past channel construction outside the claim",
-            "DESIGN.md §2 C06"),
+    "C03": ("kani", "bounded model checking (Kani/CBMC): component-level binding and no-ignored-payload obligations over symbolic proof components",
+            "every sub-parser consumes its encoding completely, leaves are recomputed from opened values, Merkle openings bind claimed leaves (injective transparent hash) and carry no unused payload; decided per component for all symbolic payloads within the stated sizes",
+            K_NOTE + "; whole-proof bit flips through verify() and the FRI-remainder substitution are outside (see DESIGN C03/C05)", "DESIGN.md §2 C03"),
+    "C06": ("kani", "bounded model checking (Kani/CBMC) of the real deserializers and second-stage parsers over symbolic byte buffers",
+            "every byte string up to the stated buffer bound (first stage) and every payload for each enumerated length/count layout (second stage) is decided against Kani's panic/overflow/bounds checks",
+            K_NOTE + "; hashers inside parsers replaced by a harness mixer; verify() past channel construction outside the claim", "DESIGN.md §2 C06"),
+    "C07": ("mir-smt+kani", "symbolic execution of the rustc MIR of the field kernels into SMT (bit-vector and integer encodings), decided by a z3/cvc5 portfolio; Kani for loop termination on zero representations",
+            "full-width (no value-range reduction) functional correctness of the loop-free 62/64/128-bit field operations, conversions and constants modulo the prime, and absence of arithmetic panics; counterexamples are lifted to the public API and replayed natively",
+            "rustc MIR dump, own translator (validated per run against native execution), z3 4.8/5.1, cvc5 1.0; Fermat/primality trusted; data-dependent loops (f62/f128 inv beyond zero, exp) outside", "DESIGN.md §2 C07"),
+    "C08": ("mir-smt", "MIR -> SMT with ring abstraction: extension-field formulas checked as polynomial identities over the integers",
+            "mul/square/mul_base/frobenius and the generic Quad/Cube wrappers equal schoolbook arithmetic modulo the documented irreducible for all operands, as integer identities (hold in every commutative ring)",
+            "relative to C07 (base operations abstracted as ring operations); irreducibility, cubic inv/norm and every inv outside", "DESIGN.md §2 C08"),
+    "C09": ("kani", "bounded model checking (Kani/CBMC) of the generic FFT code instantiated at a toy field F_257, on symbolic slices",
+            "for each enumerated size/position the solver shows output == Horner evaluation (resp. interpolation inverts evaluation) for all 257 values of the symbolic coefficient; a wrong linear map is detected on some slice",
+            K_NOTE + "; toy field instantiation (transfer to the real fields rests on C07/C08); sizes >= 64, all-coefficients-symbolic and the concurrent variants outside", "DESIGN.md §2 C09"),
+    "C10": ("kani", "bounded model checking (Kani/CBMC) with an injective transparent hasher: positive (prove->verify) and binding (accept => committed leaves, no surplus payload) obligations",
+            "for trees of 4/8(/16) leaves and enumerated position lists and opening shapes, for all symbolic digests: honest openings verify and decompress; an accepted opening claims exactly the committed leaves and has the honest shape",
+            K_NOTE + "; PairHash (free-algebra model of a collision-resistant hash) inside its width budget; std BTreeMap replaced by a sorted-Vec map under cfg(winterfell_verif); symbolic positions outside", "DESIGN.md §2 C10"),
+    "C11": ("mir-smt", "MIR -> SMT for the MDS kernels (all 2^(32*12) limb states, integer encoding)",
+            "frequency-domain MDS multiplication (12x12, 8x8) has no intermediate overflow and equals the circulant matrix product for every state; canonicity after the round-constant addition",
+            "only the MDS fast path and ARK bounds are decided; sponge padding/encoding, S-box chains and Blake3/SHA3 wrappers are outside this check", "DESIGN.md §2 C11"),
     "C12": ("kani", "bounded model checking (Kani/CBMC) of encode->decode round trips over symbolic constructor arguments",
-            "for every value the public constructors accept (arguments symbolic under the documented preconditions) the solver shows decode(encode(x)) == x and that the reader is exhausted; collection sizes are enumerated and small",
-            "Kani/CBMC trusted; field-element encodings (Montgomery maps) are decided under C07 by Engine M; collection lengths beyond the enumerated ones outside the claim",
-            "DESIGN.md §2 C12"),
+            "for every value the public constructors accept (arguments symbolic under the documented preconditions) decode(encode(x)) == x and the reader is exhausted; collection sizes enumerated and small",
+            K_NOTE + "; field-element encodings (Montgomery maps) decided under C07", "DESIGN.md §2 C12"),
     "C13": ("kani", "bounded model checking (Kani/CBMC): differential harness ReadAdapter vs SliceReader, operation sequences and chunkings enumerated, stream contents symbolic",
-            "for each enumerated (operation sequence, stream length, chunk size) the solver shows for every stream content that the streaming reader returns exactly what the slice reader returns and is never pessimistic in check_eor",
-            "Kani/CBMC trusted; sequences longer than 4 operations, streams other than the enumerated lengths (0..9 and 257..260 bytes) and io errors other than short reads are outside the claim",
-            "DESIGN.md §2 C13"),
+            "for each enumerated (operation sequence, stream length, chunk size) and every stream content the streaming reader returns exactly what the slice reader returns and is never pessimistic in check_eor",
+            K_NOTE + "; sequences longer than 4 operations, streams other than the enumerated lengths (0..9, 257..260 bytes), io errors other than short reads outside", "DESIGN.md §2 C13"),
+    "C15": ("kani", "bounded model checking (Kani/CBMC) at F_257: folding identity on symbolic slices, position folding / layout / layer count over fully symbolic integers",
+            "apply_drp equals the coefficient-domain definition for every challenge (resp. every value of one coefficient) on the enumerated domains; fold_positions, map_positions_to_indexes and num_fri_layers equal their reference for all arguments in range",
+            K_NOTE + "; end-to-end prover->verifier acceptance is not decided here", "DESIGN.md §2 C15"),
+    "C16": ("kani", "bounded model checking (Kani/CBMC) at F_257 over fully symbolic assertions, steps and exemption counts",
+            "transition divisor vanishes exactly on non-exempt steps, assertion divisors exactly on named steps, overlaps_with == step-set intersection, validation rules -- for every well-formed assertion (pair) at trace lengths 8 and 16",
+            K_NOTE + "; toy field; trace lengths > 16 (32 thorough); BoundaryConstraint value polynomials outside", "DESIGN.md §2 C16"),
+    "C18": ("kani", "bounded model checking (Kani/CBMC) of the integer security estimate and the acceptance policy over the whole parameter space",
+            "conjectured level == documented formula, monotone, never underflows; validate refuses exactly below the minimum / outside the option set -- for all queries, blowups, grinding factors, extensions, trace lengths, 3 fields x collision resistances",
+            K_NOTE + "; the proven estimate (f64 log2/powf/sqrt) cannot be decided by CBMC and is outside", "DESIGN.md §2 C18"),
+    "C19": ("kani", "bounded model checking (Kani/CBMC): DefaultRandomCoin over a transparent hasher against a reference coin, symbolic seeds/reseed data/nonces",
+            "for each enumerated history (<= 6 operations) outputs equal a function of the whole history for every symbolic seed, digest and nonce; integer draws are full-width, in range and of the requested count; drawn elements are canonical",
+            K_NOTE + "; real hashers inside the coin and rejection loops beyond 3 candidates outside", "DESIGN.md §2 C19"),
+    "C20": ("kani", "bounded model checking (Kani/CBMC) at F_257 on symbolic slices against schoolbook references",
+            "add/sub/mul/div/syn_div/eval/interpolate/poly_from_roots/degree/power series/mul_acc/batch_inversion satisfy their defining identities for all values of the symbolic operands at the enumerated sizes",
+            K_NOTE + "; toy field; lengths around the 1024 batching threshold outside", "DESIGN.md §2 C20"),
 }
 NOT_APPLICABLE = {
     "C01": "completeness needs whole prove+verify runs (LDE, hashing every row, FRI) per trace: not encodable for a solver within reach (DESIGN §1 measured limits); boundary-parameter ingredients are decided under C06/C12",
